@@ -13,7 +13,7 @@
    NOT covered by these theorems: region-suffixed factories (known finding C06-B lives there), several services/products in
    one metastore, hostile metastore writes (C07's subject); "once the faults stop the next operation succeeds" is decided by
    the monitor (and by C01's theorems for the cache-less configuration). *)
-From Asherah Require Import Envelope.Session Envelope.Frame Envelope.FrameInst Envelope.Create Envelope.Coherent Envelope.Rotation.
+From Asherah Require Import Envelope.Session Envelope.Frame Envelope.FrameInst Envelope.Create Envelope.Coherent Envelope.FreshProcess Envelope.Rotation.
 
 Theorem C02_records_durable : forall svc prod t0 ops,
   Forall (benign svc prod) ops ->
@@ -36,6 +36,16 @@ Theorem C02_store_well_formed : forall svc prod t0 ops,
   Forall (benign svc prod) ops -> store_ok svc prod (w_store (h_world (snd (hrun (hinit t0) ops)))).
 Proof. exact store_well_formed. Qed.
 Print Assumptions C02_store_well_formed.
+
+(* "a fresh process holding only the metastore contents and the KMS can decrypt the record": a process with empty tables and
+   caching disabled, on the metastore as it is after ANY history, opens every record ever returned *)
+Theorem C02_fresh_process_decrypts : forall svc prod t0 ops now pol,
+  Forall (benign svc prod) ops ->
+  let h := snd (hrun (hinit t0) ops) in
+  forall j d, nth_error (h_recs h) j = Some d ->
+    exists pid p, fst (decrypt_data_row_record (nocache_env svc prod pid pol) d (fresh_world (w_store (h_world h)) now)) = inr p.
+Proof. exact every_record_decrypts_in_a_fresh_process. Qed.
+Print Assumptions C02_fresh_process_decrypts.
 
 (* the hypotheses are met and the conclusion is about something: a history with rotation, a faulted encrypt and three records *)
 Example C02_nonvacuous :
